@@ -60,7 +60,34 @@ func runKindPart(c *core.Ctx) {
 		return
 	}
 	c.CountFuncs(1)
-	fr := an.ConstFrame("recv.Kind")
+	subject := "recv.Kind"
+	// the classification may be delegated to a helper that is handed the kind
+	for depth := 0; depth < 3; depth++ {
+		rbs := an.ReturnBlocks(et)
+		if len(rbs) != 1 {
+			break
+		}
+		call, ok := an.Unwrap(an.ReturnValues(an.LastInstr(rbs[0]).(*ssa.Return))[0]).(*ssa.Call)
+		if !ok {
+			break
+		}
+		g := an.StaticCallee(&call.Call)
+		if !an.InModuleFn(g) || len(g.Params) != len(call.Call.Args) {
+			break
+		}
+		pi := -1
+		for i, a := range call.Call.Args {
+			if an.PathOf(a) == subject {
+				pi = i
+			}
+		}
+		if pi < 0 {
+			break
+		}
+		et, subject = g, "p:"+g.Params[pi].Name()
+		c.CountFuncs(1)
+	}
+	fr := an.ConstFrame(subject)
 	got := map[int64]an.Set{}
 	for _, rb := range an.ReturnBlocks(et) {
 		r := an.LastInstr(rb).(*ssa.Return)
